@@ -270,6 +270,10 @@ func init() {
 		st.allocLimit = ex.intArg(st, args[0], "alloc limit")
 		return nil, ctlRet
 	})
+	regRepo("vhSplitCap", func(ex *Exec, st *State, fr *Frame, args []Value) (Value, ctlT) {
+		st.splitCap = ex.intArg(st, args[0], "split cap")
+		return nil, ctlRet
+	})
 	regRepo("vhMapOrderAll", func(ex *Exec, st *State, fr *Frame, args []Value) (Value, ctlT) {
 		st.mapOrderAll = args[0].(*Term).IsTrue()
 		return nil, ctlRet
